@@ -125,6 +125,7 @@ func zzCfgFromParams() zzCfg {
 		max:      vParam("max"),
 		deferred: vParam("deferred") == 1,
 		icap:     vParam("icap"),
+		stats:    vParam("stats") == 1,
 	}
 }
 
@@ -185,4 +186,14 @@ func zzNewEnv(cfg zzCfg) *zzEnv {
 // zzAddOK reports whether now+d is representable (no int64 overflow); both non-negative.
 func zzAddOK(now int64, d time.Duration) bool {
 	return now <= int64(^uint64(0)>>1)-int64(d)
+}
+
+// hashmapGetQuiet reads the table without side effects (physical presence, expired or not).
+func (c *cache[K, V]) hashmapGetQuiet(key K) (V, bool) {
+	n := c.hashmap.Get(key)
+	if n == nil {
+		var z V
+		return z, false
+	}
+	return n.Value(), true
 }
